@@ -52,6 +52,9 @@ var props = map[string]propCfg{
 	"C18": {Level: "exploration",
 		Quick:    tierCfg{Checks: 48000, Shards: 16, Guard: 10 * time.Minute},
 		Thorough: tierCfg{Checks: 1600000, Shards: 16, Guard: 60 * time.Minute}},
+	"C01": {Level: "exploration", DeathIsViolation: true,
+		Quick:    tierCfg{Checks: 2400, Shards: 16, Guard: 15 * time.Minute},
+		Thorough: tierCfg{Checks: 32000, Shards: 16, Guard: 150 * time.Minute}},
 	"C02": {Level: "exploration", DeathIsViolation: true,
 		Quick:    tierCfg{Checks: 800, Shards: 16, Guard: 15 * time.Minute},
 		Thorough: tierCfg{Checks: 32000, Shards: 16, Guard: 120 * time.Minute}},
